@@ -208,3 +208,68 @@ def expand_simple_apps(ck, t: Term, depth: int = 2) -> Term:
                     return expand_simple_apps(ck, r, depth - 1)
         return x
     return go(t)
+
+
+def select_cases(t: Term, limit: int = 8):
+    """[(specialised term, [(condition, truth), ...])]: a term containing conditional expressions (whose tests mention no
+    bound variable) is split into one case per outcome, so a rule written for if/else paths also reads `a if c else b`"""
+    def first_select(x):
+        for y in T.subterms(x):
+            if y[0] == "select" and not any(z[0] == "bv" for z in T.subterms(y[1])):
+                return y
+        return None
+    out = []
+    work = [(t, [])]
+    while work:
+        cur, conds = work.pop()
+        sel = first_select(cur)
+        if sel is None or len(out) + len(work) >= limit:
+            out.append((cur, conds))
+            continue
+        pc, pol = T.positive(sel[1])
+        for tv in (True, False):
+            work.append((T.specialize(cur, {pc: tv}), conds + [(pc, tv)]))
+    return out
+
+
+def merged_return(ck, fn: FunctionInfo, **kw) -> Tuple[Term, Path]:
+    """The value a function returns as ONE term: the return paths are folded back into a tree of conditional expressions
+    along the conditions they assumed, so `if c: return a` / `return b` and `return a if c else b` read the same."""
+    paths = [p for p in explore(ck, fn, **kw) if p.outcome == "return"]
+    if not paths:
+        raise AnalysisError(f"{fn.where} {short(fn)}: no return path")
+
+    def fold(items):
+        # items: [(remaining assumptions [(cond, truth)], value)]
+        if len(items) == 1:
+            return items[0][1]
+        heads = {it[0][0][0] if it[0] else None for it in items}
+        if None in heads or len(heads) != 1:
+            raise AnalysisError(f"{fn.where} {short(fn)}: return paths do not branch on a common condition")
+        c = next(iter(heads))
+        t_items = [(it[0][1:], it[1]) for it in items if it[0][0][1] is True]
+        f_items = [(it[0][1:], it[1]) for it in items if it[0][0][1] is False]
+        if not t_items or not f_items:
+            return fold(t_items or f_items)
+        return T.mk_select(c, fold(t_items), fold(f_items))
+    items = [([(c, tv) for c, tv, _ in p.state.assumptions], p.value) for p in paths]
+    return fold(items), paths[0]
+
+
+def cmap_reader_methods(ck):
+    """(read, parse) of CmapReader found by what they do, not by what they are called: `read` is the method that reads the
+    file through the file reader (calls readFile), `parse` the one that builds an OpticalMap from one molecule's rows"""
+    p = ck.ctx.p
+    cr = p.find_class("CmapReader")
+    read = parse = None
+    for m in cr.methods.values():
+        if m.name == "__init__":
+            continue
+        txt = ast.unparse(m.node)
+        if "readFile" in txt and read is None:
+            read = m
+        if "OpticalMap(" in txt and "readFile" not in txt:
+            parse = m
+    if read is None or parse is None:
+        raise AnalysisError(f"{cr.where}: CmapReader's reading method / per-molecule parser not found")
+    return read, parse
